@@ -18,10 +18,11 @@ const (
 	TIntSet // only as constants / bindings
 	TStrSet
 	TAny // ill-typed workloads only
+	TRawInt // a Go `int` (not int64): what a carelessly written user operator or constant table yields
 )
 
 func (t Ty) String() string {
-	return [...]string{"bool", "int", "str", "ilist", "slist", "iset", "sset", "any"}[t]
+	return [...]string{"bool", "int", "str", "ilist", "slist", "iset", "sset", "any", "rawint"}[t]
 }
 
 // Node kinds.
@@ -209,6 +210,8 @@ func StaticType(cfg *CfgSpec, n *Node) Ty {
 			return TIntList
 		case "sl":
 			return TStrList
+		case "int":
+			return TRawInt
 		}
 		return TAny
 	case KConst:
